@@ -51,7 +51,10 @@ def n_cases(tier):
 def gen_case(rng, tier, idx):
     return {"root": "wb" if idx % 4 != 3 else "csr",
             "max_space": (13 if rng.random() < 0.25 else 10) if tier == "quick" else rng.choice([10, 13, 13, 15]),
-            "hole_budget": 96 if tier == "quick" else 256}
+            "hole_budget": 96 if tier == "quick" else 256,
+            # back-to-back root traffic: the next access is presented in the cycle right after the previous one
+            # completed (Wishbone: CYC and STB stay asserted across the acknowledge; CSR: no idle cycle between chunks)
+            "tight": idx % 2 == 1}
 
 
 class Build:
@@ -408,6 +411,8 @@ def run_case(case):
     if not infos:
         return mon.result(skipped="generated hierarchy has no reachable resource", summary=summary)
 
+    tight = bool(case.get("tight"))
+
     async def bench(ctx):
         # initial SRAM images straight from the simulator (robust against init handling)
         for sm in sram_model:
@@ -454,8 +459,18 @@ def run_case(case):
                 ctx.set(root.r_stb, 0)
                 ctx.set(root.w_stb, 0)
                 got = ctx.get(root.r_data)
-                await cycle()
+                if tight:
+                    st["unsettled"] = True
+                    mon.count("back_to_back_accesses")
+                else:
+                    await cycle()
                 return got
+
+            async def settle():
+                # a register's write strobe follows the last chunk write by one cycle: let it happen before the
+                # events of this access are collected
+                if st.pop("unsettled", False):
+                    await cycle()
 
             async def read_granule(a):
                 return await csr_access(a, 1, 0), True
@@ -480,11 +495,19 @@ def run_case(case):
                         await cycle()
                         break
                     await cycle()
+                if tight and acked:
+                    # the next transfer follows in the very next cycle, CYC and STB still asserted (everything a
+                    # transfer causes has happened by the time it is acknowledged)
+                    mon.count("back_to_back_accesses")
+                    return acked, data
                 ctx.set(root.cyc, 0)
                 ctx.set(root.stb, 0)
                 await cycle()
                 await cycle()
                 return acked, data
+
+            async def settle():
+                pass
 
             async def read_granule(a):
                 acked, data = await wb_transfer(a >> gbits, 1 << (a & (ratio - 1)), 0, bits(rng, wdw))
@@ -539,6 +562,7 @@ def run_case(case):
                             mon.ok("mapped_access_acknowledged", acked, f"read of {path} word {word} was not acknowledged")
                             for l in lanes:
                                 chunks[(word << gbits) + l - s] = (data >> (l * cdw)) & ((1 << cdw) - 1)
+                    await settle()
                     evs = take_events()
                     mine = [x for x in evs if x["leaf"] == li and x["kind"] == "r"]
                     mon.ok("no_foreign_activity", not foreign(evs, li),
@@ -567,6 +591,7 @@ def run_case(case):
                             data = sum(vals[(word << gbits) + l - s] << (l * cdw) for l in lanes)
                             acked, _ = await wb_transfer(word, sel, 1, data)
                             mon.ok("mapped_access_acknowledged", acked, f"write of {path} word {word} was not acknowledged")
+                    await settle()
                     evs = take_events()
                     mine = [x for x in evs if x["leaf"] == li and x["kind"] == "w"]
                     mon.ok("no_foreign_activity", not foreign(evs, li),
@@ -587,6 +612,7 @@ def run_case(case):
                     we = rng.getrandbits(1)
                     take_events()
                     await wb_transfer(word, sel, we, bits(rng, wdw))
+                    await settle()
                     evs = take_events()
                     first_sel = any((word << gbits) + l == s for l in sub)
                     last_sel = any((word << gbits) + l == e - 1 for l in sub)
@@ -616,6 +642,7 @@ def run_case(case):
                     if sram.writable:
                         m_ = ((1 << cdw) - 1) << (lane * cdw)
                         sm["rows"][row] = (sm["rows"][row] & ~m_) | (nv << (lane * cdw))
+                    await settle()
                     evs = take_events()
                     bad = [x for x in evs if not (x["kind"] == "sram" and x["leaf"] == k)]
                     mon.ok("no_foreign_activity", not bad, lambda: f"SRAM access at {a} disturbed other leaves: {bad[:4]}")
@@ -647,6 +674,7 @@ def run_case(case):
             take_events()
             v, acked = await read_granule(a)
             wacked = await write_granule(a, bits(rng, cdw))
+            await settle()
             evs = take_events()
             claim = claimed_by_wishbone_target(rmap, B.claims, a) if case["root"] == "wb" else None
             if case["root"] == "wb" and claim in ("sram",):
